@@ -38,11 +38,11 @@ def plan(tier, seed):
             U += u(c, 'exh_ordered')
         for c in d2:
             U += u(c, 'exh_canon', 2)
-            U += u(c, 'sparse', 1, count=120, cap=4, perm=1.0)
+            U += u(c, 'sparse', 1, count=300, cap=4, perm=1.0)
         for c in d2[:2]:
             U += u(dict(c, opts={'cse': False}), 'exh_canon', 1)
-        for c in rng.sample(d3, 8) + [{'p': 3, 'q': 0, 'r': 0}, {'p': 2, 'q': 0, 'r': 1}]:
-            U += u(c, 'random', 1, count=200, cap=8)
+        for c in rng.sample(d3, 16) + [{'p': 3, 'q': 0, 'r': 0}, {'p': 2, 'q': 0, 'r': 1}]:
+            U += u(c, 'random', 1, count=400, cap=8)
             U += u(c, 'special', 1, cap=8)
         U += u(dict({'p': 3, 'q': 0, 'r': 0}, opts={'cse': False}), 'random', 1, count=60, cap=8)
         for c in rng.sample(gen.pqr_all(4, 4), 6) + rng.sample(gen.pqr_all(5, 5), 4):
